@@ -49,6 +49,8 @@ def wexpr(e, out):
         out.append('n' + fnum(e[1]))
     elif k == 'v':
         out.append('v%d' % e[1])
+    elif k == 'dvx':                      # C20 extension: defined variable (common expression), already an NL index
+        out.append('v%d' % e[1])
     elif k in ('T', 'F'):
         out.append('n1' if k == 'T' else 'n0')
     elif k in ('sum', 'min', 'max', 'forall', 'exists', 'alldiff', 'notalldiff', 'count'):
@@ -196,6 +198,7 @@ class Model:
         self.suffixes = []  # dict(name, kind 0 var/1 con/2 obj/3 prob, float(bool), vals{idx:val})
         self.x0 = {}
         self.pi0 = {}
+        self.defvars = []   # C20 extension: common expressions, dict(lin{j:c}, nl); referenced as ('dv', k)
         self.name = 'gen'
 
     def var(self, lb, ub, integer=False, name=None):
@@ -266,6 +269,8 @@ class Model:
         def remap(e):
             if e[0] == 'v':
                 return ('v', pos[e[1]])
+            if e[0] == 'dv':
+                return ('dvx', n + e[1])
             if e[0] == 'pl':
                 return ('pl', e[1], e[2], pos[e[3]])
             if e[0] in ('n', 'T', 'F'):
@@ -296,13 +301,20 @@ class Model:
         L.append(' %d %d %d %d %d' % (h['nbv'], h['niv'], h['nlvbi'], h['nlvci'], h['nlvoi']))
         L.append(' %d %d' % (nzc, nzo))
         L.append(' 0 0')
-        L.append(' 0 0 0 0 0')
+        L.append(' %d 0 0 0 0' % len(self.defvars))
         # NL requires nonlinear constraints first: we keep model order but then all cons must be
         # either all-nonlinear-first; simplest: reorder so that nonlinear cons come first
         corder = [i for i, c in enumerate(self.cons) if c['nl'] is not None] + [i for i, c in enumerate(self.cons) if c['nl'] is None]
         self.con_order = corder
         oorder = [i for i, o in enumerate(self.objs) if o['nl'] is not None] + [i for i, o in enumerate(self.objs) if o['nl'] is None]
         self.obj_order = oorder
+        for k, dv in enumerate(self.defvars):          # C20 extension: V segments (all declared "used in both")
+            L.append('V%d %d 0' % (n + k, len(dv['lin'])))
+            for j in sorted(dv['lin'], key=lambda j: pos[j]):
+                L.append('%d %s' % (pos[j], fnum(dv['lin'][j])))
+            out = []
+            wexpr(remap(dv['nl']) if dv.get('nl') is not None else ('n', 0), out)
+            L += out
         for k, i in enumerate(corder):
             L.append('C%d' % k)
             out = []
